@@ -431,7 +431,33 @@ def build_collision(P, names, order, variant):
     return pb, obs
 
 
-BUILDERS = {"collision": build_collision}
+def build_cumulative(P, names, order, variant):
+    """Three tasks with work amounts on a cumulative worker whose productivity and cost do not divide evenly by its
+    size (the elementary workers are not interchangeable), a cost indicator on it"""
+    n = lambda k: names.get(k, k)
+    pb = ps.SchedulingProblem(name=n("pb"), horizon=P.int("hz", ph=30))
+    tis = {}
+    for key in _perm(["T1", "T2", "T3"], order.get("tasks")):
+        if key == "T3":
+            tis[key] = make_task(P, n(key), "var", vmin=True, vmax=True, work_amount=True, pkey=key)
+        else:
+            tis[key] = make_task(P, n(key), "fixed", work_amount=True, pkey=key)
+    cw = ps.CumulativeWorker(name=n("W1"), size=2, productivity=3, cost=ps.ConstantFunction(value=5))
+    w2 = ps.Worker(name=n("W2"), productivity=1)
+    for key in _perm(["T1", "T2", "T3"], order.get("assign")):
+        tis[key].obj.add_required_resource(cw)
+        if key == "T3":
+            tis[key].obj.add_required_resource(w2)
+    ind = ps.IndicatorResourceCost(list_of_resources=[cw])
+    obs = [("horizon", pb._horizon, None), ("cost", ind._indicator_variable, None)]
+    for key, t in tis.items():
+        obs += [(f"{key}.start", t.s, None), (f"{key}.end", t.e, None)]
+        if t.kind == "var":
+            obs.append((f"{key}.duration", t.obj._duration, None))
+    return pb, obs
+
+
+BUILDERS = {"collision": build_collision, "cumulative_uneven": build_cumulative}
 
 
 def shapes(tier):
@@ -457,6 +483,10 @@ def shapes(tier):
     for p in itertools.permutations(range(3)):
         if list(p) != [0, 1, 2]:
             out.append(twin_shape("collision", "permute", f"tasks_{''.join(map(str, p))}", order={"tasks": list(p)}))
+    for stage in ("tasks", "assign"):
+        for p in ([(1, 0, 2), (2, 1, 0)] if not thorough else [q for q in itertools.permutations(range(3)) if list(q) != [0, 1, 2]]):
+            out.append(twin_shape("cumulative_uneven", "permute", f"{stage}_{''.join(map(str, p))}", order={stage: list(p)}))
+    out.append(twin_shape("cumulative_uneven", "rename", "prefixes", names=NAME_POOLS["prefixes"]))
     out.append(twin_shape("objective_bounded", "permute", "objectives_10", order={"objectives": [1, 0]}))
     out.append(twin_shape("objective_bounded", "permute", "objectives_10_tasks_210", order={"objectives": [1, 0], "tasks": [2, 1, 0]}))
     out.append(twin_shape("objective_bounded", "rename", "reversed", names=NAME_POOLS["reversed"]))
